@@ -96,6 +96,8 @@ def viewOf (k : Kind) (f : SFile) : Option View :=
 (time, date); the record count must be a multiple of it; at least two steps (with one step no record differs
 from the first: `one3d` raises IndexError, the other two infer a wrong layer count — outside the domain) -/
 def mmDecode (k : Kind) (cells : Nat) (ws : List Word) : Option View :=
+  -- `memmap.reshape(records, cells + 4)` fails unless the file is a whole number of records
+  if ws.length % (cells + 4) ≠ 0 then none else
   let rs := chunk (cells + 4) ws ws.length
   let m := leading rs
   if m = 0 ∨ m = rs.length ∨ rs.length % m ≠ 0 then none else
